@@ -56,6 +56,9 @@ class CInjector(fault.Injector):
         h.die(drop=True)
       self.dead = True
       raise Crash('crash before effect %d, unflushed tails lost' % i)
+    if f is not None and f[0] == 'conn_error' and f[1] == i:
+      self.trace.append({'i': i, 'kind': kind, 'name': name, 'nbytes': nbytes})
+      raise ConnectionResetError('injected connection reset at effect %d %s %s' % (i, kind, name))
     try:
       return super().effect(kind, name, nbytes)
     except Crash:
@@ -248,6 +251,8 @@ def faults_from(trace, with_errors=True):
     out.append(('crash_drop', e['i']))
     if with_errors:
       out.append(('error', e['i']))
+      if e['kind'] == 'net':
+        out.append(('conn_error', e['i']))  # a transient network failure (ConnectionError family), not a plain OSError
     if e['kind'] == 'write' and e['nbytes']:
       n = e['nbytes']
       for p in sorted({0, 1, n // 2, n - 1}):
@@ -301,7 +306,7 @@ def download(case):
         res = ('ok', p, req.gets, [e for e in inj.trace if e['kind'] == 'write'])
       except Crash:
         res = ('crash',)
-      except InjectedIOError:
+      except (InjectedIOError, ConnectionError):
         res = ('ioerror',)
       return res, inj.trace
 
